@@ -225,7 +225,8 @@ class EphysAlfCreator(object):
         n_clusters = cluster_channels.shape[0]
 
         clusters_depths = channel_positions[cluster_channels, 1]
-        clusters_depths[self.model.nan_idx] = np.nan
+        # Clusters without spikes have no depth.
+        clusters_depths[np.setdiff1d(np.arange(n_clusters), spike_clusters)] = np.nan
         assert clusters_depths.shape == (n_clusters,)
 
         if self.model.sparse_features is None:
